@@ -513,4 +513,25 @@ def zero_guard_store(b, field, member):
     return False
 
 
-RULES = [rule_tables, rule_cli]
+def rule_variant_payloads(ctx):
+    """Enum-valued options: on the arm of each variant its payload is printed (LogTarget::Default(facility) ...)."""
+    pb, printer = printer_table(ctx)
+    n = 0
+    for name, a in ctx.facts.adts.items():
+        if name != 'config::LogTarget' or not a.get('enum'):
+            continue
+        for v in a.get('variants', []):
+            if not v.get('fields'):
+                continue
+            n += 1
+            tag = 'self.log_target@%s.' % v['name']
+            rows = [p for p in printer if tag in p['desc']]
+            ctx.check(bool(rows), 'K8', 'variant-payload-printed:LogTarget::%s' % v['name'],
+                      'the payload of LogTarget::%s is printed (key %s)' % (v['name'], [p['key'] for p in rows]),
+                      'Config::to_toml prints nothing derived from the payload of LogTarget::%s (%s): a configuration with that log '
+                      'target reads back with the default payload' % (v['name'], [f['ty'] for f in v['fields']]),
+                      loc='%s:%d' % (pb.file, pb.line))
+    ctx.floor('K8', 'payload-carrying variants of LogTarget', n, 2)
+
+
+RULES = [rule_tables, rule_cli, rule_variant_payloads]
